@@ -80,6 +80,7 @@ type Interp struct {
 	curPos    token.Pos
 	onceDone  map[*Value]bool
 	ownInit   bool
+	objIDs    map[interface{}]uint64
 	stubs     map[string]bool
 }
 
